@@ -407,3 +407,42 @@ func H_C12_db(inst int) {
 	verify(a.Close() == nil && b.Close() == nil, "Close returned an error")
 	reach("c12/db", true)
 }
+
+// ---- C01: which occurrences the reader identifies as one variable (expected answers given in Go) ----
+
+func init() { vHarnesses["H_C01_readvars"] = H_C01_readvars }
+
+var c01ReadVars = []struct {
+	prog, query string
+	want        []string // values of X per answer
+}{
+	{"par(tom, bob). par(bob, ann). par(tom, joe). gr(A, Z) :- par(A, _Y), par(_Y, Z).", "gr(tom, X).", []string{"ann"}},
+	{"same(_V, _V).", "same(a, X).", []string{"a"}},
+	{"same(_V, _V).", "same(a, b), X = wrong ; X = right.", []string{"right"}},
+	{"two(_, _).", "two(a, b), X = ok.", []string{"ok"}},
+	{"v(_1, _1, __, __, Ab_1, Ab_1).", "v(a, X, b, Y, c, Z), X == a, Y == b, Z == c.", []string{"a"}},
+	{"p(X, X). q(X, Y) :- p(X, Y).", "q(a, X), p(_W, _W).", []string{"a"}},
+}
+
+func H_C01_readvars(inst int) {
+	c := c01ReadVars[inst]
+	note("case", c.prog+" ?- "+c.query)
+	i := newFull()
+	verify(i.Exec(c.prog) == nil, "harness: program does not load")
+	sols, err := i.Query(c.query)
+	verify(err == nil, "Query returned an error")
+	var got []string
+	for len(got) < 6 && sols.Next() {
+		m := map[string]interface{}{}
+		verify(sols.Scan(m) == nil, "Scan failed")
+		s, _ := m["X"].(string)
+		got = append(got, s)
+	}
+	verify(sols.Err() == nil, "the query raised an error")
+	sols.Close()
+	verify(len(got) == len(c.want), "a different number of answers than the program has (variable occurrences identified wrongly?)")
+	for k := range got {
+		verify(got[k] == c.want[k], "a different answer than the program has: "+got[k]+" instead of "+c.want[k])
+	}
+	reach("c01/readvars", true)
+}
